@@ -1,6 +1,6 @@
 (* TableP.v — EnumTable (C10): the slots are the enabled variants, Index/IndexMut behave as a
    finite map keyed by the slots, constructors / transform / all / all_ok. *)
-Require Import Strum.Spec.Statements.
+Require Import Strum.Spec.Statements Strum.Proofs.IterP.
 From Coq Require Import Lia List Arith Bool.
 Import ListNotations.
 Local Open Scope list_scope.
@@ -352,3 +352,63 @@ Print Assumptions C10_transform_proof.
 Print Assumptions C10_all_proof.
 Print Assumptions C10_all_ok_proof.
 Print Assumptions C10_disabled_panics_proof.
+
+(* ---------------------------------------------------------------- totality, end to end (generator + Index/IndexMut) *)
+
+Lemma table_loop_enabled : forall vs idx st, table_loop idx vs = Ok st ->
+  forall j v p, nth_error vs j = Some v -> vprops_of v = Ok p -> vp_disabled p = false ->
+  In (idx + j) (map fst (ts_slots st)).
+Proof.
+  induction vs as [|v r IH]; intros idx st; cbn [table_loop].
+  - intros _ j v p Hj; destruct j; discriminate.
+  - unfold bind at 1. destruct (vprops_of v) as [p| |] eqn:Hp; try discriminate.
+    destruct (vp_disabled p) eqn:Hd.
+    + unfold bind. destruct (table_loop (S idx) r) as [rest| |] eqn:Hr; try discriminate.
+      intros H; injection H as <-. cbn [ts_slots].
+      intros j v0 p0 Hj Hp0 Hd0. destruct j as [|j]; cbn [nth_error] in Hj.
+      * injection Hj as <-. rewrite Hp in Hp0. injection Hp0 as <-. congruence.
+      * replace (idx + S j) with (S idx + j) by lia. exact (IH _ _ Hr j v0 p0 Hj Hp0 Hd0).
+    + destruct (negb (is_unit (v_fields v))) eqn:Hu; [discriminate|].
+      unfold bind. destruct (table_loop (S idx) r) as [rest| |] eqn:Hr; try discriminate.
+      intros H; injection H as <-. cbn [ts_slots map fst In].
+      intros j v0 p0 Hj Hp0 Hd0. destruct j as [|j]; cbn [nth_error] in Hj.
+      * left. lia.
+      * right. replace (idx + S j) with (S idx + j) by lia. exact (IH _ _ Hr j v0 p0 Hj Hp0 Hd0).
+Qed.
+
+Lemma gen_table_enabled_in it c i v p :
+  gen_table it = Ok c -> variant_at it i v p -> vp_disabled p = false -> In i (map fst (tb_slots c)).
+Proof.
+  unfold gen_table. destruct (0 <? i_lifetimes it)%nat; [discriminate|].
+  unfold enum_variants. destruct (i_kind it); cbn [bind]; try discriminate.
+  unfold bind. destruct (table_loop 0 (i_variants it)) as [st| |] eqn:Hl; try discriminate.
+  destruct (ts_slots st) as [|s0 sl] eqn:Hs; [discriminate|].
+  intros H; injection H as <-. cbn [tb_slots]. intros [Hn Hp] Hd.
+  rewrite <- Hs. exact (table_loop_enabled _ _ _ Hl i v p Hn Hp Hd).
+Qed.
+
+Lemma C10_total_map_proof : stmt_C10_total_map.
+Proof.
+  unfold stmt_C10_total_map. intros T it c t i v p Hg WS Hv.
+  destruct (C10_slots_proof it c Hg) as (_ & ND & Hdis & _). split.
+  - intros Hd. pose proof (gen_table_enabled_in it c i v p Hg Hv Hd) as Hin.
+    destruct (slot_pos_in _ _ Hin) as [k Hk].
+    assert (Hlt : k < length t). { unfold well_sized in WS. rewrite WS. exact (slot_pos_lt _ _ _ Hk). }
+    destruct (nth_error t k) as [x|] eqn:Hx; [|apply nth_error_None in Hx; lia].
+    split.
+    + exists x. unfold tb_index. rewrite Hk, Hx. reflexivity.
+    + intros y. exists (set_at T t k y).
+      assert (Hset : tb_set T c t i y = TOk (set_at T t k y)) by (unfold tb_set; rewrite Hk; reflexivity).
+      split; [exact Hset|]. exact (C10_get_set_same_proof T c t i y _ ND WS Hset).
+  - intros Hd.
+    assert (Hi : In i (tb_disabled c)) by (apply (Hdis i v p Hv); exact Hd).
+    assert (Hn0 : ~ In i (map fst (tb_slots c))).
+    { intros Hin. rewrite (proj1 (C10_slots_proof it c Hg)) in Hin.
+      apply ec_in in Hin. destruct Hin as (j & v' & p' & Hj & Hn' & Hp' & Hd'). cbn in Hj. subst j.
+      destruct Hv as [Hn Hp]. rewrite Hn in Hn'. injection Hn' as <-. rewrite Hp in Hp'. injection Hp' as <-. congruence. }
+    apply slot_pos_none in Hn0.
+    assert (He : existsb (Nat.eqb i) (tb_disabled c) = true).
+    { apply existsb_exists. exists i. split; [exact Hi | apply Nat.eqb_refl]. }
+    unfold tb_index, tb_set. rewrite Hn0, He. split; [reflexivity | intros y; reflexivity].
+Qed.
+Print Assumptions C10_total_map_proof.
